@@ -210,6 +210,18 @@ def run_elem(R, J, name, tokens, full, reduced):
             R.call(lambda: setattr(e, py, None))
             n0 = new_event(e)
             tostring(e, n0)                                # a required attribute is missing: must be refused
+            # the same element built WITHOUT the required attribute from the start (constructor keywords): where the
+            # dot surface cannot unset it (an attribute spelt like a Python member of the class) this is the only way
+            def without(py=py):
+                kw = {k: v for k, v in kwargs.items() if k != py}
+                x = cls(value, **kw) if value != '' else cls(**kw)
+                for k in kids:
+                    x.add_child(F.mk(k))
+                return x
+            rb, e = R.call(without)
+            if rb['ok']:
+                n0 = new_event(e)
+                tostring(e, n0)
     # ---- undeclared names
     declared = set(a for a, _, _ in decl)
     # names the schema declares for other types (including those that collide with Python-side members of the
